@@ -349,6 +349,32 @@ func expandPhis(c RetCase, depth int) []RetCase {
 	}
 	// the case must be reached through blk for the split to make sense
 	if c.At != nil && !(blk == c.At || blk.Dominates(c.At)) {
+		// the case was already pinned to one way into blk (by the store that reaches a spilled result): the merged
+		// values are the operands of that way
+		for i, p := range blk.Preds {
+			if p != c.At {
+				continue
+			}
+			nc := c
+			nc.Vals = append([]ssa.Value{}, c.Vals...)
+			nc.Via = make([][]ssa.Value, len(c.Vals))
+			for k := range c.Vals {
+				if k < len(c.Via) {
+					nc.Via[k] = append([]ssa.Value{}, c.Via[k]...)
+				}
+			}
+			changed := false
+			for k, v := range c.Vals {
+				if phi, ok := v.(*ssa.Phi); ok && phi.Block() == blk && i < len(phi.Edges) {
+					nc.Vals[k] = phi.Edges[i]
+					nc.Via[k] = append(nc.Via[k], phi)
+					changed = true
+				}
+			}
+			if changed {
+				return expandPhis(nc, depth+1)
+			}
+		}
 		return []RetCase{c}
 	}
 	// ways into blk that contradict a test (of one of blk's phis) on the way to the return are not cases
